@@ -310,40 +310,37 @@ def extErrToPErr : ExtErr → PErr
   | .hopByHop => .ipv6HopByHop
   | .authZero => .ipv6ExtsAuthZeroLen
 
-def mkV6 (o : Nat) (nh : Nat) (hp : Win) (r : ExtsOut) (src : LenSource) (inc : Bool) : IpR :=
+/-- `sm`: struct mode keeps the decoded headers in the slots of `Ipv6Extensions`; the slice types
+    only keep the extension slice. -/
+def mkV6 (sm : Bool) (o : Nat) (nh : Nat) (hp : Win) (r : ExtsOut) (src : LenSource) (inc : Bool) : IpR :=
   { v4 := false, hdr := ⟨o, 40⟩, auth := none, exts := ⟨hp.o, hp.l - r.rest.l⟩,
-    first := extsFirst nh hp.l r, slots := r.slots,
+    first := extsFirst nh hp.l r, slots := if sm then r.slots else ExtSlots.none,
     pl := { num := r.next, frag := r.frag, src := src, w := r.rest, inc := inc } }
 
-/-- strict: boundary, then the chain (`sm`: struct mode); length errors of the chain get the
-    boundary's len_source and `+ 40`. -/
+/-- the strict chain behind the boundary: `hp` = header payload, `src` = its length source; length
+    errors of the chain get the boundary's len_source and `+ 40`. -/
+def ipv6ChainStrict (g : Mem) (sm : Bool) (o : Nat) (hp : Win) (src : LenSource) : Except PErr IpR :=
+  match extsWalkStrict g sm (g (o + 6)) hp.o hp.l with
+  | .error (.len e) => .error (.len ((e.withSrc src).addOffset 40))
+  | .error e => .error (extErrToPErr e)
+  | .ok r => .ok (mkV6 sm o (g (o + 6)) hp r src false)
+
+/-- strict: boundary, then the chain (`sm`: struct mode) -/
 def ipv6AfterHeaderStrict (g : Mem) (sm : Bool) (o l : Nat) : Except PErr IpR :=
-  let pl := g16 g (o + 4)
-  match ipv6BoundStrict o l pl with
+  match ipv6BoundStrict o l (g16 g (o + 4)) with
   | .error e => .error (.len e)
-  | .ok (hp, src) =>
-    let nh := g (o + 6)
-    match extsWalkStrict g sm nh hp.o hp.l with
-    | .error (.len e) => .error (.len ((e.withSrc src).addOffset 40))
-    | .error e => .error (extErrToPErr e)
-    | .ok r => .ok (mkV6 o nh hp r src false)
+  | .ok (hp, src) => ipv6ChainStrict g sm o hp src
 
 /-- `Ipv6Slice::from_slice_lax`: lax boundary but a strict chain -/
 def ipv6AfterHeaderLaxBoundStrictChain (g : Mem) (o l : Nat) : Except PErr IpR :=
-  let pl := g16 g (o + 4)
-  let (hp, src, _inc) := ipv6BoundLax o l pl
-  let nh := g (o + 6)
-  match extsWalkStrict g false nh hp.o hp.l with
-  | .error (.len e) => .error (.len ((e.withSrc src).addOffset 40))
-  | .error e => .error (extErrToPErr e)
-  | .ok r => .ok (mkV6 o nh hp r src false)
+  ipv6ChainStrict g false o (ipv6BoundLax o l (g16 g (o + 4))).1 (ipv6BoundLax o l (g16 g (o + 4))).2.1
 
 def ipv6AfterHeaderLax (g : Mem) (sm : Bool) (o l : Nat) : IpR × Option (PErr × Layer) :=
   let pl := g16 g (o + 4)
   let (hp, src, inc) := ipv6BoundLax o l pl
   let nh := g (o + 6)
   let r := extsWalk g sm nh hp.o hp.l
-  (mkV6 o nh hp r src inc,
+  (mkV6 sm o nh hp r src inc,
     match r.stop with
     | none => none
     | some (.len e, ly) => some (.len ((e.withSrc src).addOffset 40), ly)
